@@ -60,8 +60,27 @@ pub fn read_graphml_string(string: &str, specs: GraphSpecs) -> Result<Graph<Stri
     let mut edges: Vec<Arc<Edge<String, ()>>> = vec![];
     let mut last_element_name: String = "".to_string();
     let mut edge_weight_attr_name = "weight".to_string();
+    // set by a <data> start tag that carries the edge weight key: the very next event, if it is a
+    // text, is the weight; any other event is handled as usual (nothing is skipped)
+    let mut expecting_weight_text = false;
     loop {
-        match reader.read_event_into(&mut buf) {
+        let event = reader.read_event_into(&mut buf);
+        let is_weight_text = std::mem::replace(&mut expecting_weight_text, false);
+        match event {
+            Ok(Event::Text(e)) if is_weight_text => {
+                let weight =
+                    str::from_utf8(&e).map_err(|e| get_read_error(format!("{}", e).as_str()))?;
+                match (last_element_name.as_str(), edges.last_mut()) {
+                    ("edge", Some(last_edge)) => {
+                        let edge = Arc::make_mut(last_edge);
+                        edge.weight = weight
+                            .trim()
+                            .parse::<f64>()
+                            .map_err(|_| get_read_error("an edge weight is not a number"))?;
+                    }
+                    _ => (),
+                }
+            }
             Ok(Event::Empty(ref e)) => match e.name().as_ref() {
                 b"node" => {
                     let result = add_node(&mut nodes, e);
@@ -114,26 +133,8 @@ pub fn read_graphml_string(string: &str, specs: GraphSpecs) -> Result<Graph<Stri
                         if attrs.contains_key("key") {
                             let key = attrs.get("key").unwrap();
                             if key == &edge_weight_attr_name {
-                                let mut buf = Vec::new();
-                                match reader.read_event_into(&mut buf) {
-                                    Ok(Event::Text(e)) => {
-                                        let weight = str::from_utf8(&e)
-                                            .map_err(|e| get_read_error(format!("{}", e).as_str()))?;
-                                        match (last_element_name.as_str(), edges.last_mut()) {
-                                            ("edge", Some(last_edge)) => {
-                                                let edge = Arc::make_mut(last_edge);
-                                                edge.weight =
-                                                    weight.trim().parse::<f64>().map_err(|_| {
-                                                        get_read_error(
-                                                            "an edge weight is not a number",
-                                                        )
-                                                    })?;
-                                            }
-                                            _ => (),
-                                        }
-                                    }
-                                    _ => (),
-                                }
+                                // the weight is the text that immediately follows this start tag
+                                expecting_weight_text = true;
                             }
                         }
                     }
